@@ -12,6 +12,8 @@ def _core(out, tier, seed, prop, quick_mc, thorough_mc, quick_rand, thorough_ran
         jobs["doc-" + cat] = core.doc_jobs(cat, nr, max(3, depth // 2), seed + 1)
         # random graphs with names and values outside the catalogues
         jobs["fuzz-" + cat] = core.fuzz_jobs(max(40, nr // 2), seed + 11, cat)
+        # equal lines without identifier are separate lines
+        jobs["dup-" + cat] = core.dup_jobs(cat, seed + 61)
         # every identified line of a document renamed in turn
         jobs["renall-" + cat] = core.rename_jobs(cat, max(40, nr // 3), seed + 51)
         # a clone added under another identifier, then tag edits on both lines (AddClone)
@@ -27,6 +29,9 @@ def _core(out, tier, seed, prop, quick_mc, thorough_mc, quick_rand, thorough_ran
     if prop == "C09":
         for cat in ("ids1", "ids2", "gfa1", "gfa2"):
             jobs["renall2-" + cat] = core.rename_jobs(cat, nr // 2, seed + 52, kind="renall2")
+        # conversions that name the unnamed edges of the source, then additions / renames / lookups
+        jobs["conv-doc"] = core.doc_jobs("conv1", nr, 6, seed + 53, kind="convdoc")
+        jobs["conv-ren"] = core.rename_jobs("conv1", nr // 2, seed + 54, kind="convren")
     if prop == "C08":
         # level 3 refuses more (invalid values): a larger share of histories at that level
         for cat in ("gfa1", "gfa2"):
@@ -92,6 +97,21 @@ def check_c16(out, tier, seed):
         jobs["doc-" + cat] = c.doc_jobs(cat, nr, 4, seed)
         # edges taken out, edited (intervals / orientations / ends) and added again; edits of connected lines
         jobs["edit-" + cat] = c.edit_jobs(cat, nr, 7, seed + 5, complete=True)
+    # whole documents (every segment defined in the end) in shuffled arrival orders: groups, edges and
+    # fragments before the segments they mention
+    import random as _r
+    rr = _r.Random(seed + 9)
+    for cat in ("topo1", "topo2"):
+        lines = [c.text_of(l) for l in c.CATALOGUES[cat]["lines"]]
+        js = []
+        for i in range(60 if tier == "quick" else 1500):
+            od = list(lines)
+            rr.shuffle(od)
+            js.append(dict(id="shuf-%s-%d" % (cat, i), kind="shuf", cfg=dict(version=c.CATALOGUES[cat]["version"], vlevel=1),
+                           ops=[dict(k="add", text=t, id="", id2="") for t in od] +
+                               [dict(k="rm", text="", id=rr.choice(c.CATALOGUES[cat]["ids"]), id2="")],
+                           universe=c.universe_of(c.CATALOGUES[cat])))
+        jobs["shuf-" + cat] = js
     c.run_pipeline(out, jobs, mc, "C16")
     out.assumptions += ["TLC; Components/N* operators of spec/Gfa.tla", "harness/project.py"]
 
@@ -275,6 +295,20 @@ def check_c11(out, tier, seed):
                                      ops=[A(x) for x in od] + [dict(k="ren", text="", id="a", id2="d")],
                                      universe=["a", "b", "d", "g1"]))
                     n += 1
+    # fans: several dovetails on the same end of a segment, entered from a branch (the connectivity
+    # answers follow from the end collections: other-end, neighbours, components)
+    for o1 in "+-":
+        for o2 in "+-":
+            fan = ["S\tA\t*", "S\tB\t*", "S\tC\t*", "S\tD\t*", "L\tA\t%s\tC\t%s\t*" % (o1, o2), "L\tB\t%s\tC\t%s\t*" % (o1, o2),
+                   "L\tC\t%s\tD\t%s\t*" % (o2, o1), "C\tC\t+\tC\t-\t0\t*"]
+            fan2 = ["S\ta\t3\t*", "S\tb\t3\t*", "S\tc\t3\t*", "S\td\t3\t*",
+                    "E\t*\ta+\tc+\t1\t3$\t0\t2\t*", "E\t*\tb+\tc+\t1\t3$\t0\t2\t*", "E\t*\tc+\td+\t1\t3$\t0\t2\t*"]
+            for doc, ver, uni2, rmid in ((fan, "gfa1", ["A", "B", "C", "D"], "B"), (fan2, "gfa2", ["a", "b", "c", "d"], "b")):
+                for od in (doc, doc[4:] + doc[:4], doc[::-1]):
+                    jobs.append(dict(id="fan-%d" % n, kind="cell", cfg=dict(version=ver, vlevel=1),
+                                     ops=[A(x) for x in od] + [dict(k="disc", text=doc[-1], id="", id2=""),
+                                                               dict(k="rm", text="", id=rmid, id2="")], universe=uni2))
+                    n += 1
     r = c.replay_validate(jobs, "val-C11")
     traces = list(r["by_id"].values())
     by_id = r["by_id"]
@@ -282,7 +316,7 @@ def check_c11(out, tier, seed):
         t = by_id[tid]
         props = c.attribute(clauses, "cell")
         if "C11" in props:
-            out.violations.append(dict(family="core", clauses=[x for x in clauses if c.CLAUSE_PROP.get(x) == "C11"],
+            out.violations.append(dict(family="core", clauses=[x for x in clauses if "C11" in c.attribute([x], "cell")],
                                        all_clauses=clauses, event=ev, trace=tid, cfg=t["cfg"], ops=t["src"][:ev],
                                        what="clauses %s at call %d" % (",".join(clauses), ev)))
         for pp in props - {"C11"}:
@@ -368,11 +402,21 @@ def check_c13(out, tier, seed):
             entries = ["list", "file"] if tier == "quick" else ["list", "str", "file", "filecrlf"]
             validate = dict(k="validate", text="", id="", id2="")
             for n, h in enumerate(seqs):
+                if tier == "quick" and vlevel == 0 and n % 2:
+                    continue        # quick: half of the sequences at level 0
                 texts = [ops[i]["text"] for i in h]
                 # incremental (every sequence), maximal ones only would lose the refusals: keep all
                 jobs.append(dict(id="vi-%s-%s-%d-%d" % (catname, cfgv, vlevel, n), kind="ver",
                                  cfg=dict(version=cfgv, vlevel=vlevel, dialect=dialect),
                                  ops=[ops[i] for i in h] + [flush, validate], universe=["A", "a"]))
+                if n % (5 if tier == "quick" else 3) == (seed + 1) % 3 and dialect == "standard" and vlevel == 1:
+                    # the same lines offered as Line instances (the last one, or all of them)
+                    for mode in ("last", "all"):
+                        seq = [dict(ops[i], inst=True) if (mode == "all" or k == len(h) - 1) else ops[i]
+                               for k, i in enumerate(h)]
+                        jobs.append(dict(id="vn-%s-%s-%s-%d-%d" % (mode, catname, cfgv, vlevel, n), kind="ver",
+                                         cfg=dict(version=cfgv, vlevel=vlevel, dialect=dialect),
+                                         ops=seq + [flush, validate], universe=["A", "a"]))
                 if tier != "quick" or n % 3 == seed % 3:
                     for en in (entries if tier != "quick" else entries[n % 2: n % 2 + 1] if dialect == "standard" else entries):
                         jobs.append(dict(id="vl-%s-%s-%s-%d-%d" % (en, catname, cfgv, vlevel, n), kind="ver",
@@ -438,6 +482,16 @@ def check_c10(out, tier, seed):
     n = 40 if tier == "quick" else 600
     for cat in ("gfa1", "gfa2", "perm1", "perm2"):
         jobs += [interleave(j) for j in c.doc_jobs(cat, n, 3, seed)]
+    # the whole catalogue as one document (refused lines skipped), segments first and segments last:
+    # every query group on groups over undirected edges, self-edges, multi-line groups, fragments ...
+    for cat in ("gfa1", "gfa2", "topo1", "topo2", "perm2", "permg", "perml"):
+        lines = [c.text_of(l) for l in c.CATALOGUES[cat]["lines"]]
+        for variant, od in (("sf", sorted(lines, key=lambda t: t[0] != "S")), ("sl", sorted(lines, key=lambda t: t[0] == "S"))):
+            gs = list(queries.GROUPS)
+            jobs.append(dict(id="qfull-%s-%s" % (cat, variant), kind="full",
+                             cfg=dict(version=c.CATALOGUES[cat]["version"] if c.CATALOGUES[cat]["version"] != "none" else "none", vlevel=1),
+                             ops=[dict(k="add", text=t, id="", id2="") for t in od] + [Qop(g) for g in gs + gs[:5]],
+                             universe=c.universe_of(c.CATALOGUES[cat])))
     # states in which the version is still undecided and lines wait in the queue: a query must not
     # decide it (nor deliver the queue)
     for cat in ("ver", "kfq"):
